@@ -76,6 +76,12 @@ func translateArgs(args []string) []string {
 		return args
 	}
 
+	// name of a command is a command, even if working directory has a directory of that name
+	switch args[0] {
+	case "server", "decrypt", "make-iso":
+		return args
+	}
+
 	if st, err := os.Stat(args[0]); err == nil && st.IsDir() {
 		return append([]string{"server", "--root=" + args[0]}, args[1:]...)
 	}
